@@ -130,7 +130,8 @@ impl<'c> Slice<'c> {
             }
         }
 
-        resolve_mates(&mut records)?;
+        let records_have_names = compression_header.preservation_map().records_have_names();
+        resolve_mates_with(&mut records, !records_have_names)?;
 
         Ok(records)
     }
@@ -176,7 +177,12 @@ pub fn read_slice<'c>(src: &mut &'c [u8]) -> io::Result<Slice<'c>> {
     Ok(Slice { header, src })
 }
 
+#[cfg(test)]
 fn resolve_mates(records: &mut [Record]) -> io::Result<()> {
+    resolve_mates_with(records, true)
+}
+
+fn resolve_mates_with(records: &mut [Record], generate_missing_names: bool) -> io::Result<()> {
     let mut mate_indices: Vec<_> = records
         .iter()
         .enumerate()
@@ -186,7 +192,8 @@ fn resolve_mates(records: &mut [Record]) -> io::Result<()> {
     for i in 0..records.len() {
         let record = &mut records[i];
 
-        if record.name.is_none() {
+        // A missing name in a container that preserves read names is a record without a name.
+        if generate_missing_names && record.name.is_none() {
             let name = record.id.to_string().into_bytes();
             record.name = Some(Cow::from(name));
         }
